@@ -7,18 +7,26 @@ Local Open Scope string_scope.
 
 (* ---- tie to the source: the variant of the model the current tree is ---- *)
 
+Definition strs_eqb (a b : list string) : bool := list_eqb String.eqb a b.
+
+(* the record-after-success protocol: RunTask checks dry, drops the record when an attempt starts
+   and records after the last command succeeded *)
+Definition safe_protocol : bool :=
+  strs_eqb fp_runtask_dry_args ["true"] && Nat.eqb fp_success_record_code 2 && fp_invalidate_first.
+Definition check_writes_protocol : bool :=
+  strs_eqb fp_runtask_dry_args ["e.Dry"] && (Nat.eqb fp_success_record_code 0 || Nat.eqb fp_success_record_code 1)
+  && negb fp_invalidate_first && fp_cs_check_writes && fp_ts_check_touches.
+
 Definition current : variant :=
   {| v_ts_rollback := fp_ts_onerror_removes;
      v_prompt_rollback := fp_prompt_rolls_back;
      v_listjson_dry := Nat.eqb fp_editor_dry_code 1;
-     v_safe := fp_runtask_records;
+     v_safe := safe_protocol;
      v_fp_exact := negb fp_cs_stream_basename;
      v_ts_exact := negb fp_ts_compares_mtimes;
      v_ts_gen_exist := fp_ts_checks_generates;
      v_dry_mkdir_guard := Nat.eqb fp_mkdir_dry_code 1;
-     v_force_records := fp_runtask_records |}.
-
-Definition strs_eqb (a b : list string) : bool := list_eqb String.eqb a b.
+     v_force_records := negb (Nat.eqb fp_success_record_code 0) |}.
 
 (* shapes the model hard-wires; any other shape of the code breaks this obligation *)
 Definition fp_shape_ok : bool :=
@@ -27,13 +35,14 @@ Definition fp_shape_ok : bool :=
   && fp_cs_onerror_removes && fp_cmd_error_rolls_back            (* failing command -> statusOnError -> Remove *)
   && fp_cs_checks_generates && fp_status_and_sources
   && fp_prompt_loop_found
-  && strs_eqb fp_runtask_dry_args ["e.Dry"] && strs_eqb fp_status_dry_args ["e.Dry"]
+  && strs_eqb fp_status_dry_args ["e.Dry"]
   && String.eqb fp_dry_wiring "Dry||Status"                       (* --status implies dry *)
   && String.eqb fp_skip_fingerprinting "e.ForceAll||(!call.Indirect&&e.Force)"
   && (Nat.eqb fp_editor_dry_code 0 || Nat.eqb fp_editor_dry_code 1)
   && (Nat.eqb fp_mkdir_dry_code 0 || Nat.eqb fp_mkdir_dry_code 1)
-  && Bool.eqb fp_cs_check_writes (negb fp_runtask_records)        (* either the check writes, or RunTask records after success *)
-  && Bool.eqb fp_ts_check_touches (negb fp_runtask_records || negb fp_ts_compares_mtimes).
+  && (safe_protocol || check_writes_protocol)                     (* one of the two protocols, recognisably *)
+  && fp_normalize_plain                                           (* state file name = normalizeFilename(name) *)
+  && true.
 
 (* ---- oracles used when replaying real runs ---- *)
 Definition idH (s : string) : string := s.
